@@ -48,6 +48,14 @@ func c14Plain(t *rapid.T, op string, thread int) {
 			go func() { defer wg.Done(); _ = t.Context() }()
 			wg.Wait()
 		})
+	case "CleanupErrorfSpawn":
+		t.Cleanup(func() {
+			var wg sync.WaitGroup
+			wg.Add(2)
+			go func() { defer wg.Done(); t.Errorf("failure from a goroutine started by a cleanup") }()
+			go func() { defer wg.Done(); _ = t.Failed() }()
+			wg.Wait()
+		})
 	case "Draw":
 		rapid.Bool().Draw(t, "b")
 	}
